@@ -175,6 +175,8 @@ def run(ctx, shape, opts):
             batches.append([m.peel(x).get('data').get('input').as_str().concrete() for x in batch.items])
         else:
             ctx.fail('the stream terminates')
+        if ctx.outputs is not None:
+            ctx.outputs['stream%d' % len(all_streams)] = batches
         G = list(m.c08_log)          # global order in which the sources were pulled: position = global item index
         names = ['s%d_%d' % g for g in G]
         flat = [x for b in batches for x in b]
@@ -213,8 +215,6 @@ def run(ctx, shape, opts):
             G0 = G
         elif st != 'Weighted':
             ctx.require(G == G0, 'the global item order does not depend on the rank')
-        if ctx.outputs is not None:
-            ctx.outputs.setdefault('streams', []).append(batches)
     if shape['mode'] == 'world':
         flatall = [i for L in all_streams for i in L]
         ctx.require(len(set(flatall)) == len(flatall), 'the per-rank streams are disjoint')
@@ -289,13 +289,13 @@ def _streams(shape, inputs):
 def native_outputs(native, shape, inputs):
     if shape['part'] == 'switch':
         return {'ok': True}
-    out = []
-    for rank, world in _streams(shape, inputs):
+    out = {}
+    for i, (rank, world) in enumerate(_streams(shape, inputs)):
         k, v = _call(native, shape, inputs, rank, world)
         if k != 'ok':
             return {'panic': v}
-        out.append([[it[0] for it in b] for b in v['batches']])
-    return {'streams': out}
+        out['stream%d' % i] = [[it[0] for it in b] for b in v['batches']]
+    return out
 
 
 def concrete_check(native, inputs, shape):
@@ -312,6 +312,11 @@ def concrete_check(native, inputs, shape):
             return ['init_iter succeeds']
         F = [b[0] for b in full['batches']]
         ids = [x[1] for x in F]
+        for _ in range(6):   # the same configuration again: every source of randomness must come from the seed
+            k, again = _call(native, shape, inp, 0, 1, 'wscorrupt', True, skip='0', limit=None, ff='0', threads=0, buffer='1', batch_limit=1)
+            if k != 'ok' or again != full:
+                failed.add('no randomness from an unseeded generator')
+                break
         union = []
         for rank, world in _streams(shape, inp):
             start = inp['skip'] + inp['ff'] + rank
